@@ -236,8 +236,11 @@ func NewChain(cfg GenesisCfg) *Chain {
 	return c
 }
 
+// BlockTime of the current height: genesis time (= wall clock at start) plus 5 s per block.
+func (c *Chain) BlockTime() time.Time { return c.Time.Add(time.Duration(c.Height) * 5 * time.Second) }
+
 // Ctx returns a deliver-state context for the current height/seed (Mode K).
 func (c *Chain) Ctx() sdk.Context {
-	hdr := tmproto.Header{ChainID: ChainID, Height: c.Height, AppHash: c.AppHash, Time: c.Time}
+	hdr := tmproto.Header{ChainID: ChainID, Height: c.Height, AppHash: c.AppHash, Time: c.BlockTime()}
 	return c.App.BaseApp.NewContext(false, hdr).WithBlockHeight(c.Height)
 }
